@@ -409,6 +409,11 @@ def configs(tier):
     # other store modes: persistent connection without journal (thread_safe=False), 'rewrite' mode
     out.append({'name': 'history-s-m-s-not-thread-safe', 'task': 'history',
                 'args': {'ops': ['sync0', 'mut0', 'sync0', 'all'], 'ninds': 1, 'same_id': False, 'thread_safe': False}, 'weight': 50, 'engine': ve})
+    # ... and the same store mode when the rows are written one by one only (no bulk sync before the store is closed)
+    out.append({'name': 'history-s-m-s-not-thread-safe-no-bulk-sync', 'task': 'history',
+                'args': {'ops': ['sync0', 'mut0', 'sync0'], 'ninds': 1, 'same_id': False, 'thread_safe': False}, 'weight': 50, 'engine': ve})
+    out.append({'name': 'history-s0-s1-not-thread-safe-no-bulk-sync', 'task': 'history',
+                'args': {'ops': ['sync0', 'sync1'], 'ninds': 2, 'same_id': False, 'thread_safe': False, 'plain': True}, 'weight': 60, 'engine': ve})
     out.append({'name': 'history-s-m-all-rewrite-mode', 'task': 'history',
                 'args': {'ops': ['sync0', 'mut0', 'all'], 'ninds': 1, 'same_id': False, 'mode': 'rewrite'}, 'weight': 50, 'engine': ve})
     # MANY individuals in one store (only the first one carries solver choices): sync_all alone, and sync_all after some
